@@ -68,6 +68,41 @@ def probe(V, source, defs, pred_fail, what, std='c++11', run_it=True, variant=No
         V.samples.append({'probe': source, 'defs': defs, 'output': p.stdout.strip()[-200:]})
     return True
 
+def config_chain(V, kinds):
+    """every order of every subset of the five Config builder settings (326 chains) behaves as configured; `kinds` selects
+    which settings the calling property is about (limit, capacity, activation, context, payload)"""
+    for h in header_variants():
+        defs = ['VX_DEV_HEADER'] if h == 'dev' else []
+        cmd = ['g++', '-std=c++11', '-I' + os.path.join(REPO, 'include'), '-I' + os.path.join(REPO, 'development')] + ['-D' + d for d in defs]
+        src = os.path.join(PROBES, 'probe_config_chain.cpp')
+        key = hashlib.sha1(json.dumps([repo_fingerprint(), open(src).read(), cmd]).encode()).hexdigest()[:16]
+        out = os.path.join(BUILD, 'p_' + key)
+        rec = dict(kind='probe', source='probe_config_chain.cpp', defs=defs, std='c++11', cmd=' '.join(cmd + [src]))
+        if not os.path.exists(out):
+            p = subprocess.run(cmd + [src, '-o', out + '.tmp'], stdout=subprocess.PIPE, stderr=subprocess.STDOUT, text=True)
+            if p.returncode != 0:
+                lines = [l for l in p.stdout.splitlines() if 'error' in l]
+                V.add_violation('config-chain-unusable', 'a chain of Config settings (Context, ManualActivation, SubstitutionLimitN, TaskCapacityN, PayloadT in some order) does not build: %s' % (lines[0] if lines else p.stdout[-300:])[:500], dict(rec, output=p.stdout[-3000:]))
+                continue
+            os.replace(out + '.tmp', out)
+        try:
+            p = subprocess.run([out], stdout=subprocess.PIPE, stderr=subprocess.STDOUT, text=True, timeout=120)
+            so = p.stdout
+        except subprocess.TimeoutExpired:
+            V.add_violation('config-chain-hangs', 'the configuration-chain program did not terminate within 120 s (a library call does not return)', dict(rec, output='')); continue
+        mism = re.findall(r'MISMATCH kind=(\w+) chain=(\S+) got=(-?\d+) expected=(-?\d+)', so)
+        if p.returncode not in (0, 1) or (p.returncode == 1 and not mism):
+            V.add_violation('config-chain-crash', 'the configuration-chain program ended abnormally (rc=%d): %s' % (p.returncode, so[-300:]), dict(rec, output=so[-3000:])); continue
+        mine = [m for m in mism if m[0] in kinds or m[0] == 'baseline']
+        V.transitions += 326; V.validated += 326; V.states += 32
+        seen = set()
+        for kind, chain, got, exp in mine:
+            if kind in seen: continue
+            seen.add(kind)
+            n = sum(1 for m in mine if m[0] == kind)
+            V.add_violation('configured-%s-not-in-effect' % kind, '%s header: Config chain %s: configured %s %s, the machine behaves as %s (%d of 326 chains affected)' % (h, chain, kind, exp, got, n), dict(rec, output=so[-3000:]))
+        if not mine: V.samples.append({'probe': 'probe_config_chain.cpp', 'header': h, 'kinds': sorted(kinds), 'output': so.strip().splitlines()[-1][:200]})
+
 def replay_probe(r):
     print(r.get('cmd', '')); print(r.get('output', '')[-3000:])
     p = subprocess.run(r['cmd'].split() + ['-o', os.path.join(BUILD, 'replay_probe')], stdout=subprocess.PIPE, stderr=subprocess.STDOUT, text=True)
@@ -94,6 +129,7 @@ def check_c10(tier):
     V = Verdict('C10', tier)
     V.assumptions = ['plan edits are made on an active machine', 'TaskCapacityN<255> is the library\'s "use the state count" sentinel (DESIGN.md O1): explicit capacities are checked on 1..254']
     firstlast = probe(V, 'probe_plan_firstlast.cpp', [], 'plan-first-last-unusable', 'first()/last() of the mutable plan (Instance::plan(), control.plan())')
+    config_chain(V, {'capacity'})
     extra = ['VX_PLAN_FIRSTLAST'] if firstlast else []
     # plan through a real machine
     specs = [S('P5', 1, M_PL, O_PL), S('P6', 1, M_PL, O_PL), S('P3', 2, M_PL, O_PL), S('P7', 1, M_PL | mf('PAYLOAD'), O_PL | og('PAYLOAD')), S('P5h', 1, M_PL, O_PL | og('SERIAL', 'REPLAY')), S('P6m', 0, M_PL, O_PL | og('SERIAL', 'MANUAL'))]
@@ -410,3 +446,10 @@ def check_c19(tier):
     except Exception as e:
         V.add_violation('amalgamation-failed', 'tools/join.py logic could not amalgamate the development sources: %s' % e, dict(kind='amalgamation'))
     return V.finish(rule='every switch combination x standards x compilers x header variants of a feature-neutral public-API program is built with the project warning flags and run; all behaviour digests must be equal; on the explorer the complete d<=1 edge sets of a feature-neutral alphabet are compared across feature subsets; amalgamation compared byte for byte')
+
+# configuration-chain probe for the explorer-driven checks whose quantifier names the setting
+vc.POST_HOOKS['C01'] = lambda V, tier: config_chain(V, {'activation'})
+vc.POST_HOOKS['C02'] = lambda V, tier: config_chain(V, {'limit', 'activation'})
+vc.POST_HOOKS['C04'] = lambda V, tier: config_chain(V, {'limit'})
+vc.POST_HOOKS['C06'] = lambda V, tier: config_chain(V, {'context'})
+vc.POST_HOOKS['C07'] = lambda V, tier: config_chain(V, {'payload'})
